@@ -87,7 +87,7 @@ def call_transform(arg):
             f, vp = where[1], where[2]
             test = vpred_fn(vp)
             kw['where'] = lambda rec: test(rec[f])
-        if any(c is not None and c[0] == 'fn' and c[1] == 6 for _, c in cs):
+        if any(c is not None and c[0] == 'fn' and c[1] in (6, 8) for _, c in cs):
             kw['pass_row'] = True
         return canon_exc_rows(etl.convert(L(t), convs, failonerror=pol, errorvalue=errorvalue, **kw))
     if nm == 'fieldmap':
@@ -181,19 +181,35 @@ class C12(Prop):
             yield Case('transform', ('fillright', rng.choice([None, None, 'x', 'xy']), t))
             yield Case('transform', ('fillleft', rng.choice([None, None, 'x', 'xy']), t))
             yield Case('reshape', ('columns', missing, t2))       # (unique field names)
+            yield Case('sub', (rng.choice(['x', 'y', '[xy]', 'xy']), rng.choice(['-', '', 'Z']), rng.choice([0, 1, 2]),
+                               tuple(rng.choice(['xx', 'xyxy', 'axbxc', '', 'y']) for _ in range(rng.choice([1, 3])))))
             cs = rng.choice([(('a', ('fn', 0)),), (('a', ('fn', 0)), ('v', ('fn', 2))), ((1, ('fn', 0)),),
                              (('k', ('dict', ((1, 'one'), ('x', 'X')))),), (('v', ('fn', 6)),), (('a', None), ('v', ('fn', 5))),
                              (('zz', ('fn', 0)),)])
             where = rng.choice([None, None, ('field', 'k', ('eq', 1)), ('field', 'v', ('isnone',))])
-            if any(c is not None and c[0] == 'fn' and c[1] == 6 for _, c in cs):
+            if any(c is not None and c[0] == 'fn' and c[1] in (6, 8) for _, c in cs):
                 where = None
             yield Case('transform', ('convert', cs, False, rng.choice([None, 'ERR']), where, t))
             yield Case('transform', ('fieldmap', (('kk', ('field', 'k')), ('aa', ('fieldconv', 'a', ('fn', 0))),
                                                   ('n', ('rowfn', 1)), ('v2', ('fieldconv', 'v', ('fn', 2)))),
                                      False, rng.choice([None, 'ERR']), t))
 
+    def expand(self, case):
+        if case.op == 'sub':
+            return Case('const_true', case.arg, dict(case.meta, orig='sub'))
+        return case
+
     def impl(self, case):
         try:
+            if case.op == 'const_true':
+                # sub(table, field, pattern, repl, count): re.sub on that field only, the other cells untouched
+                import re
+                import petl as etl
+                pat, repl, count, vals = case.arg
+                src = [['id', 'txt', 'other']] + [[i, v, v] for i, v in enumerate(vals)]
+                got = [tuple(r) for r in etl.sub(src, 'txt', pat, repl, count=count)]
+                want = [('id', 'txt', 'other')] + [(i, re.sub(pat, repl, v, count=count), v) for i, v in enumerate(vals)]
+                return codec.t_bool(got == want)
             if case.op == 'reshape':      # dicts() / columns(): short rows are padded with `missing`, long ones trimmed
                 import petl as etl
                 _nm, missing, t = case.arg
@@ -214,6 +230,14 @@ class C12(Prop):
             return obs_exc(e)
 
     def valid(self, case):
+        if case.op in ('const_true', 'sub'):
+            try:
+                pat, repl, count, vals = case.arg
+                import re
+                re.compile(pat)
+                return isinstance(count, int) and count >= 0 and all(isinstance(v, str) for v in vals) and isinstance(repl, str)
+            except Exception:
+                return False
         try:
             ts = case.arg[-1]
             if case.arg[0] in ('cat', 'stack', 'annex'):
@@ -225,6 +249,8 @@ class C12(Prop):
     def spec(self, case, impl_obs, model_obs):
         """one output row per input row, in input order, for the 1:1 transforms; cells outside the requested fields
         carried over unchanged (checked independently of the model for cut/addfield/convert)."""
+        if case.op == 'const_true':
+            return impl_obs == codec.t_bool(True)
         if case.op == 'reshape' and case.arg[0] == 'columns' and impl_obs[0] == 'li':
             _nm, missing, t = case.arg
             flds = list(t[0])
